@@ -163,9 +163,10 @@ func genC20Mbits(g *G) {
 	// exhaustive zero/non-zero patterns
 	maxLen := g.Scale(12, 14)
 	ops := []string{"reset"}
+	emit := g.Each // the exhaustive parts are dealt to the generator shards (the patterns, not the random non-zero bytes, are the scope)
 	flush := func() {
 		if len(ops) > 1 {
-			g.Case(ops)
+			emit(ops)
 		}
 		ops = []string{"reset"}
 	}
@@ -196,6 +197,7 @@ func genC20Mbits(g *G) {
 		flush()
 	}
 	// random longer slices with long zero runs at both ends and in the middle
+	emit = g.Case
 	cases := g.Scale(500, 3000)
 	maxR := g.Scale(80, 300)
 	for c := 0; c < cases; c++ {
@@ -280,7 +282,7 @@ func genC20Trunc(g *G) {
 	maxLen := g.Scale(4, 5)
 	var rec func(cur []byte)
 	rec = func(cur []byte) {
-		g.Case(c20AllCuts([]string{"reset"}, cur, len(cur) <= 1))
+		g.Each(c20AllCuts([]string{"reset"}, cur, len(cur) <= 1)) // exhaustive parts: dealt to the generator shards
 		if len(cur) == maxLen {
 			return
 		}
@@ -292,7 +294,7 @@ func genC20Trunc(g *G) {
 	// exhaustive: every pair of runes of every width, every cut point
 	for _, a := range c20Runes {
 		for _, b := range c20Runes {
-			g.Case(c20AllCuts([]string{"reset"}, []byte(string([]rune{a, b})), false))
+			g.Each(c20AllCuts([]string{"reset"}, []byte(string([]rune{a, b})), false))
 		}
 	}
 	// random valid strings over mixed-width runes, every cut point; some damaged afterwards
@@ -338,7 +340,7 @@ func genC20Trunc(g *G) {
 				ops = append(ops, fmt.Sprintf("tr %s %d", c20Hex(s), len(s)), fmt.Sprintf("tr %s %d", c20Hex(append(s, 'a')), len(s)))
 			}
 		}
-		g.Case(ops)
+		g.Each(ops)
 	}
 }
 
@@ -499,7 +501,7 @@ func genC20Natcmp(g *G) {
 		ops = append(ops, fmt.Sprintf("row 3 %s %s", c20Hex(alpha), c20Hex(a)))
 	}
 	ops = append(ops, "matrix")
-	g.Case(ops)
+	g.Each(ops) // one fixed case: emitted by one generator shard only
 	// single triples from the same small scope (one op per case: these give the smallest witnesses)
 	small := c20StrsUpTo(alpha, 3)
 	for i := g.Scale(1500, 4000); i > 0; i-- {
@@ -514,7 +516,7 @@ func genC20Natcmp(g *G) {
 			ops = append(ops, fmt.Sprintf("row 4 %s %s", c20Hex(alpha), c20Hex(a)))
 		}
 		ops = append(ops, "matrix")
-		g.Case(ops)
+		g.Each(ops)
 	}
 	// random related triples: digit runs ≤ 18 digits (no int overflow), and a share with longer
 	// runs where only implementation = model is compared (the model wraps like Go's int)
